@@ -293,6 +293,10 @@ func (matrix *SparseReal32Matrix) AsVector() Vector {
   return matrix.AsSparseReal32Vector()
 }
 func (matrix *SparseReal32Matrix) storageLocation() uintptr {
+  if matrix.values.Dim() == 0 {
+    // matrices without elements have no storage to share
+    return uintptr(unsafe.Pointer(matrix))
+  }
   return uintptr(unsafe.Pointer(matrix.values.AT(0)))
 }
 /* const interface
